@@ -40,14 +40,14 @@ const c11deadline = 700 * timeMillisecond
 type c11ev struct{ kind, name string }
 
 type c11shape struct {
-	name  string
-	ebg   bool // catch events behind an event-based gateway (judged by the property predicate only, see the driver)
-	arm   int  // > 0: burst scripts for this shape; the number of answers that arm its listener(s)
-	refire bool // the same catch event fires three times and more
-	par   bool // two tasks can be pending at once: scripts also use "answer the second pending task"
+	name    string
+	ebg     bool // catch events behind an event-based gateway (judged by the property predicate only, see the driver)
+	arm     int  // > 0: burst scripts for this shape; the number of answers that arm its listener(s)
+	refire  bool // the same catch event fires three times and more
+	par     bool // two tasks can be pending at once: scripts also use "answer the second pending task"
 	genOnly bool // a generated shape: seeded scripts only
-	evs   []c11ev
-	build func(g *eng.Graph) map[string]int
+	evs     []c11ev
+	build   func(g *eng.Graph) map[string]int
 }
 
 func c11catch(g *eng.Graph, id string, defs ...c11ev) eng.Frag {
@@ -210,7 +210,7 @@ var c11shapes = []c11shape{
 
 // one step of the driver script
 type c11step struct {
-	op byte // 'd' deliver evs[arg] | 'a' answer the arg-th pending task (by name) | 's' start the instance | 'b' burst
+	op  byte // 'd' deliver evs[arg] | 'a' answer the arg-th pending task (by name) | 's' start the instance | 'b' burst
 	arg int
 	// burst: these events are handed in back to back, without waiting in between, from g goroutines (event i by goroutine i%g)
 	burst []int
@@ -476,25 +476,40 @@ func c11progExtra(proc *schema.Process) []string {
 			order = append(order, *id)
 		}
 	}
-	for i := range *proc.IntermediateCatchEvents() {
-		e := &(*proc.IntermediateCatchEvents())[i]
-		id, _ := e.Id()
-		order = append(order, *id)
-		for k, d := range e.CatchEvent.EventDefinitions() {
-			switch x := d.(type) {
-			case *schema.SignalEventDefinition:
-				if r, ok := x.SignalRef(); ok {
-					out = append(out, fmt.Sprintf("def %s %d signal %s", *id, k, string(*r)))
+	catches := func(list *[]schema.IntermediateCatchEvent) {
+		for i := range *list {
+			e := &(*list)[i]
+			id, _ := e.Id()
+			order = append(order, *id)
+			for k, d := range e.CatchEvent.EventDefinitions() {
+				switch x := d.(type) {
+				case *schema.SignalEventDefinition:
+					if r, ok := x.SignalRef(); ok {
+						out = append(out, fmt.Sprintf("def %s %d signal %s", *id, k, string(*r)))
+					}
+				case *schema.MessageEventDefinition:
+					if r, ok := x.MessageRef(); ok {
+						out = append(out, fmt.Sprintf("def %s %d message %s", *id, k, string(*r)))
+					}
+				default:
+					out = append(out, fmt.Sprintf("def %s %d other -", *id, k))
 				}
-			case *schema.MessageEventDefinition:
-				if r, ok := x.MessageRef(); ok {
-					out = append(out, fmt.Sprintf("def %s %d message %s", *id, k, string(*r)))
-				}
-			default:
-				out = append(out, fmt.Sprintf("def %s %d other -", *id, k))
 			}
 		}
 	}
+	catches(proc.IntermediateCatchEvents())
+	// catch events inside embedded sub-processes (any depth): an event handed to the instance reaches them too; they come
+	// after the top-level consumers (a sub-process is wired after the events and tasks of its parent). The inner START
+	// events are not listed: an embedded sub-process is started by its parent's token, never by an event.
+	var nested func(subs *[]schema.SubProcess)
+	nested = func(subs *[]schema.SubProcess) {
+		for i := range *subs {
+			sp := &(*subs)[i]
+			catches(sp.IntermediateCatchEvents())
+			nested(sp.SubProcesses())
+		}
+	}
+	nested(proc.SubProcesses())
 	out = append(out, "consumers "+strings.Join(order, ","))
 	return out
 }
